@@ -6,6 +6,7 @@
 package vtime
 
 import (
+	"context"
 	"runtime"
 	"strings"
 	"sync"
@@ -228,6 +229,47 @@ func Find(kind, sub string) []*Waiter {
 
 // Fire delivers the waiter's event now. For a ticker a tick is dropped when the one-slot channel is
 // still full (real ticker semantics); returns whether something was delivered.
+// WithTimeout is context.WithTimeout on the virtual clock: the returned context ends with
+// context.DeadlineExceeded when the harness fires its timer (label "ctx:<creator>", e.g. through FireDue once
+// the virtual clock has passed creation + d), or with the parent / on cancel as usual.
+func WithTimeout(parent context.Context, d Duration) (context.Context, context.CancelFunc) {
+	inner, cancel := context.WithCancel(parent)
+	c := &vctx{Context: inner}
+	w := register("timer", d, 1)
+	mu.Lock()
+	w.Label = "ctx:" + w.Label
+	w.f = func() {
+		c.mu.Lock()
+		if c.Context.Err() == nil {
+			c.timedOut = true
+		}
+		c.mu.Unlock()
+		cancel()
+	}
+	mu.Unlock()
+	return c, func() {
+		mu.Lock()
+		w.stopped = true
+		mu.Unlock()
+		cancel()
+	}
+}
+
+type vctx struct {
+	context.Context
+	mu       sync.Mutex
+	timedOut bool
+}
+
+func (c *vctx) Err() error {
+	c.mu.Lock()
+	defer c.mu.Unlock()
+	if c.timedOut {
+		return context.DeadlineExceeded
+	}
+	return c.Context.Err()
+}
+
 // FireDue fires every live ticker and timer whose label contains sub and whose due time has been reached by
 // the virtual clock (timer: creation + period; ticker: every full period since creation, at most one tick per
 // call - a real ticker drops ticks nobody collected). It returns the number of waiters fired. Harnesses that
